@@ -9,9 +9,8 @@
   its response headers).  A closed stream sends nothing and swallows whatever arrives, except a PUSH_PROMISE on a
   stream that was not closed by our own reset (`closed_*`).
 
-  What is NOT proved here: the same for arbitrarily many frames in flight in both directions.  (An exhaustive search
-  of the two-machine system with up to four frames in flight each way, 1 118 839 configurations, finds no refused
-  delivery; that is a test, not a theorem: tools/pair_fsm_search.lean.)
+  These are the one-frame-each-way statements.  The general one — any number of frames of all kinds in flight in both
+  directions, any interleaving — is `full_never_refused` in Proofs/PairReachMain (via PairReach / PairReachFull).
 -/
 import H2.Proofs.Shapes
 namespace H2
@@ -58,6 +57,12 @@ def isOk : ProcRes → Bool
 def graceful : ProcRes → Bool
   | .proto => false
   | _ => true
+
+/-- how a frame must be received for C01: accepted — or, on a stream that is already closed here (frames racing a
+    reset or an END_STREAM), dealt with quietly.  A stream error on a live stream (the library resets the stream
+    because the frame does not fit its state) is NOT fine: the sender's successful send would be rejected -/
+def fine (s : Shape) (j : StreamInputs) : Bool :=
+  isOk (stepShape s j).1 || (s.state == .CLOSED && graceful (stepShape s j).1)
 
 /-- a send the application may make on a stream that exists: its own machine accepts it, and it is not the known
     finding D17b (the responder's DATA / END_STREAM before its response headers) -/
@@ -109,12 +114,12 @@ def crossOk (s : Shape) (i : StreamInputs) : Bool :=
        let t1 := (stepShape (mirror s) k).2   -- the other side has sent k
        let (ra, s2) := stepShape s1 rk        -- this side receives k
        let (rb, t2) := stepShape t1 ri        -- the other side receives i
-       graceful ra && graceful rb && (!(isOk ra && isOk rb) || sameOrClosed t2 (mirror s2))
+       fine s1 rk && fine t1 ri && (!(isOk ra && isOk rb) || sameOrClosed t2 (mirror s2))
      | _, _ => true)
 
 /-- **frames crossing in flight**: from mirror-image views, each side sends something its machine allows; then each
-    receives the other's frame.  Neither receipt is a connection error, and if both are accepted the views are mirror
-    images again (or both closed) -/
+    receives the other's frame.  Both receipts are fine (accepted, or dealt with quietly by a stream this side has closed
+    meanwhile), and if both are accepted the views are mirror images again (or both closed) -/
 theorem fsm_cross : ∀ s i, crossOk s i = true := forall_shape_input (by decide +kernel)
 
 /-! ### closed streams -/
